@@ -266,6 +266,106 @@ func init() {
 		}
 		b.WriteString("Inductive bstep := " + strings.Join(names, " | ") + ".\n")
 		b.WriteString("Definition build_target_order : list bstep := [" + strings.Join(names, "; ") + "].\n")
+
+		// ---- sourceHash: what is written into the hash per source and per output of a tool (the model's source key:
+		// (path, stream) for a source, the stream alone for a tool)
+		bshow := func(n ast.Node) string {
+			var buf bytes.Buffer
+			printer.Fprint(&buf, bset, n)
+			return strings.Join(strings.Fields(buf.String()), " ")
+		}
+		sh := findFunc(f, "", "sourceHash")
+		var srcW, toolW []string
+		writes := func(body *ast.BlockStmt, hashed string, into *[]string) {
+			for _, st := range body.List {
+				switch t := show(st); t {
+				case `result, err := state.PathHasher.Hash(` + hashed + `, false, true, false)`, `if err != nil { return nil, err }`:
+				case `h.Write(result)`:
+					*into = append(*into, "WHash")
+				case `h.Write([]byte(` + hashed + `))`:
+					*into = append(*into, "WPath")
+				default:
+					failShape("sourceHash: unrecognised statement {%s}", t)
+				}
+			}
+		}
+		for _, st := range sh.Body.List {
+			switch x := st.(type) {
+			case *ast.RangeStmt:
+				switch show(x.X) {
+				case `core.IterSources(state, state.Graph, target, false)`:
+					if show(x.Key) != "src" || x.Value != nil {
+						failShape("sourceHash: unrecognised loop over the sources {%s}", show(x))
+					}
+					writes(x.Body, "src", &srcW)
+				case `target.AllTools()`:
+					if len(x.Body.List) != 1 {
+						failShape("sourceHash: unrecognised loop over the tools {%s}", show(x))
+					}
+					in, ok := x.Body.List[0].(*ast.RangeStmt)
+					if !ok || show(in.X) != `tool.FullPaths(state.Graph)` || show(in.Value) != "path" {
+						failShape("sourceHash: unrecognised loop over the tools {%s}", show(x))
+					}
+					writes(in.Body, "path", &toolW)
+				default:
+					failShape("sourceHash: unrecognised loop {%s}", show(x))
+				}
+			default:
+				switch show(st) {
+				case `h := sha1.New()`, `return h.Sum(nil), nil`:
+				default:
+					failShape("sourceHash: unrecognised statement {%s}", show(st))
+				}
+			}
+		}
+		b.WriteString("Inductive hwrite := WHash | WPath.\n")
+		b.WriteString("Definition source_hash_per_source : list hwrite := [" + strings.Join(srcW, "; ") + "].\n")
+		b.WriteString("Definition source_hash_per_tool_output : list hwrite := [" + strings.Join(toolW, "; ") + "].\n")
+
+		// ---- prepareDirectories / prepareDirectory: the temporary directory is removed and recreated before every build
+		// (the model treats it as a function of the sources: Engine.run_action, command CatAll)
+		pds := findFunc(bf, "", "prepareDirectories")
+		if len(pds.Body.List) == 0 || bshow(pds.Body.List[0]) != `if err := prepareDirectory(target.TmpDir(), true); err != nil { return err }` {
+			failShape("prepareDirectories: the temporary directory is not prepared first with remove = true")
+		}
+		pd := findFunc(bf, "", "prepareDirectory")
+		if len(pd.Body.List) == 0 || bshow(pd.Body.List[0]) != `if remove { if err := fs.RemoveAll(directory); err != nil { return err } }` {
+			failShape("prepareDirectory: does not start with `if remove { RemoveAll(directory) }` {%s}", bshow(pd.Body.List[0]))
+		}
+		// buildTarget calls prepareDirectories before build(); checked by text order
+		if i, j := strings.Index(body, "if err := prepareDirectories(target); err != nil {"), strings.Index(body, "metadata, err = build(state, target, cacheKey)"); i < 0 || j < 0 || i > j {
+			failShape("buildTarget: prepareDirectories is not called before build")
+		}
+		b.WriteString("Definition tmp_dir_removed_before_build : bool := true.\n")
+
+		// ---- filegroupBuilder.Build: keep when the hashes are equal, else RemoveAll, EnsureDir, recursive link
+		fgset, fgf := parseFile("src/build/filegroup.go")
+		fb := findFunc(fgf, "filegroupBuilder", "Build")
+		var fgbuf bytes.Buffer
+		printer.Fprint(&fgbuf, fgset, fb.Body)
+		fgbody := strings.Join(strings.Fields(fgbuf.String()), " ")
+		fgsteps := []struct{ name, text string }{
+			{"FgSourceExists", "if !fs.PathExists(from) {"},
+			{"FgSameHashKeep", "if same, err := isSameFileContent(state, target.HashLastModified(), from, to); err != nil {"},
+			{"FgRemoveAll", "if err := fs.RemoveAll(to); err != nil {"},
+			{"FgEnsureDir", "} else if err := fs.EnsureDir(to); err != nil {"},
+			{"FgLinkRecursively", "if err := fs.RecursiveCopyOrLinkFile(from, to, target.OutMode(), !target.IsBinary || !isSourceFile, true); err != nil {"},
+		}
+		var fgnames []string
+		fpos := -1
+		for _, st := range fgsteps {
+			i := strings.Index(fgbody, st.text)
+			if i < 0 {
+				continue // a missing step disappears from the list: the proof about the list breaks
+			}
+			if i <= fpos {
+				failShape("filegroupBuilder.Build: statement {%s} out of order", st.text)
+			}
+			fpos = i
+			fgnames = append(fgnames, st.name)
+		}
+		b.WriteString("Inductive fgstep := FgSourceExists | FgSameHashKeep | FgRemoveAll | FgEnsureDir | FgLinkRecursively.\n")
+		b.WriteString("Definition filegroup_build_steps : list fgstep := [" + strings.Join(fgnames, "; ") + "].\n")
 		return b.String()
 	}
 }
